@@ -47,6 +47,24 @@ func (verifCustomAuth) Start(*smtp.ServerInfo) (string, []byte, error) {
 }
 func (verifCustomAuth) Next([]byte, bool) ([]byte, error) { return nil, nil }
 
+var clearCmdRe = regexp.MustCompile(`(?i)(?:^|\r\n)(EHLO |HELO |MAIL FROM:|RCPT TO:|AUTH [A-Z0-9-]+|DATA\r\n|RSET\r\n)`)
+
+// stripTLSRecords removes well-formed TLS records from the front of b and returns what is left.
+func stripTLSRecords(b []byte) (rest []byte, records int) {
+	for len(b) >= 5 && b[0] >= 20 && b[0] <= 23 && b[1] == 3 && b[2] <= 4 {
+		l := int(b[3])<<8 | int(b[4])
+		if l > 16384+2048 {
+			break
+		}
+		records++
+		if 5+l >= len(b) {
+			return nil, records // last (possibly truncated) record
+		}
+		b = b[5+l:]
+	}
+	return b, records
+}
+
 var b64TokenRe = regexp.MustCompile(`[A-Za-z0-9+/]{8,}={0,2}`)
 
 func runC07Case(r *ev.Run, c c07Case) {
@@ -210,8 +228,11 @@ func runC07Case(r *ev.Run, c c07Case) {
 		if len(sessRaw) > 0 && sessRaw[0] != 0x16 {
 			viol("implicit-first-byte", fmt.Sprintf("with implicit TLS the first byte on the wire is %#x, not a TLS handshake record", sessRaw[0]), ev.Q(sessRaw, 100))
 		}
-		if bytes.Contains(bytes.ToUpper(sessRaw), []byte("EHLO")) || bytes.Contains(bytes.ToUpper(sessRaw), []byte("MAIL FROM")) {
-			viol("implicit-cleartext", "SMTP commands in clear on an implicit TLS connection", ev.Q(sessRaw, 300))
+		// everything on the wire must be TLS records; whatever is left after stripping them is cleartext
+		if rest, n := stripTLSRecords(sessRaw); len(rest) > 0 {
+			viol("implicit-cleartext", fmt.Sprintf("%d bytes on an implicit TLS connection are not TLS records (after %d records)", len(rest), n), ev.Q(rest, 300))
+		} else {
+			r.Count("tls_records_on_implicit_connections", int64(n))
 		}
 	}
 	// after a failed handshake: no application data
@@ -219,11 +240,11 @@ func runC07Case(r *ev.Run, c c07Case) {
 		if sess.PostTLSAppData > 0 {
 			viol("appdata-after-bad-handshake:"+c.Handshake, fmt.Sprintf("the server decrypted %d bytes of application data although its certificate is %s", sess.PostTLSAppData, c.Handshake), nil)
 		}
-		pf := bytes.ToUpper(sess.PostFailBytes)
-		for _, w := range []string{"EHLO", "MAIL FROM", "AUTH ", "RCPT TO", "DATA\r\n"} {
-			if bytes.Contains(pf, []byte(w)) {
-				viol("plaintext-after-failed-handshake:"+c.Handshake, fmt.Sprintf("after the failed handshake the client sent %q in clear", w), ev.Q(sess.PostFailBytes, 300))
-			}
+		// what the client still sends may only be TLS records (hello, alerts); the remainder is searched
+		// for command lines (the records themselves are binary and may contain any byte pattern)
+		pf, _ := stripTLSRecords(sess.PostFailBytes)
+		if m := clearCmdRe.Find(pf); m != nil {
+			viol("plaintext-after-failed-handshake:"+c.Handshake, fmt.Sprintf("after the failed handshake the client sent %q in clear", m), ev.Q(pf, 300))
 		}
 		if dialErr == nil {
 			viol("delivered-after-bad-handshake:"+c.Handshake+":"+c.Policy, "DialAndSend succeeded although the TLS handshake could not be completed with a valid certificate", nil)
